@@ -180,6 +180,7 @@ func checkC20(w *World, r *Report) {
 	r.floor("writes to the attribute cache map", nWrites, 3)
 	w.checkKeyedAccess(r, keyT)
 	w.checkEntriesOnlyUnderKeys(r, keyT, entryT)
+	w.checkAttributeAccessCoversMaps(r, keyT)
 }
 
 // keyRef: the cache key as one function sees it — a local literal (typ/attr = the values stored
@@ -1070,7 +1071,6 @@ func blockReachesAvoiding(from, to, avoid *ssa.BasicBlock) bool {
 	return walk(from)
 }
 
-
 // checkEntriesOnlyUnderKeys — R20.7: a resolved lookup (attributeCacheEntry) is kept nowhere but
 // as the value of a map keyed by the whole (type, attribute) key.  Decided on types: no
 // package-level variable and no type declared in the package contains the entry type on a path
@@ -1167,7 +1167,6 @@ func (w *World) checkEntriesOnlyUnderKeys(r *Report, keyT, entryT types.Type) {
 	r.ok("R20.7", "(package scope)", "resolved lookups are kept only under whole keys", "-", fmt.Sprintf("%d package-level variables and types hold no attributeCacheEntry outside the keyed map", n), true)
 }
 
-
 // keepsState: a named struct type with at least one pointer-receiver method (an object whose
 // fields outlive a call).
 func keepsState(nt *types.Named) bool {
@@ -1179,4 +1178,259 @@ func keepsState(nt *types.Named) bool {
 		}
 	}
 	return false
+}
+
+// checkAttributeAccessCoversMaps — R20.8: x.name on a map is a key lookup whatever the map's type.
+// The attribute resolver (the function that builds the cache key) reaches, through static calls
+// inside the package, a call of reflect.Value.MapIndex: without one, only the map types the
+// function names in type assertions (map[string]interface{}) can be answered, and x.name on a
+// map[string]string, a map with a named key type, a map of maps … is empty while x['name'] on the
+// same value is not.  This is the structural necessary condition; which key is looked up is
+// decided by R20.5-style value rules only for the cache.
+func (w *World) checkAttributeAccessCoversMaps(r *Report, keyT types.Type) {
+	n := 0
+	for _, fn := range w.pkgFuncs() {
+		if len(keyLiterals(fn, keyT)) == 0 || fn.Signature.Results().Len() == 0 {
+			continue
+		}
+		// resolvers take the attribute name
+		hasName := false
+		for _, p := range fn.Params {
+			if b, ok := p.Type().Underlying().(*types.Basic); ok && b.Kind() == types.String {
+				hasName = true
+			}
+		}
+		if !hasName {
+			continue
+		}
+		// the entry points of attribute access: the function with the key literal, or — where the
+		// cache handling was split off into a helper — the callers that hand it the name
+		g := w.callgraph()
+		family := map[*ssa.Function]bool{fn: true}
+		frontier := []*ssa.Function{fn}
+		for d := 0; d < 3; d++ {
+			var next []*ssa.Function
+			for _, f := range frontier {
+				if g.Nodes[f] == nil {
+					continue
+				}
+				for _, e := range realInEdges(f) {
+					c := e.Caller.Func
+					if c == nil || family[c] || !isTwigFn(c) || e.Site == nil || e.Site.Common().StaticCallee() != f {
+						continue
+					}
+					takesName, takesNode := false, false
+					for _, p := range c.Params {
+						if b, ok := p.Type().Underlying().(*types.Basic); ok && b.Kind() == types.String {
+							takesName = true
+						}
+						if isNamed(p.Type(), twigPath, "Node") {
+							takesNode = true
+						}
+					}
+					if takesName && !takesNode {
+						family[c] = true
+						next = append(next, c)
+					}
+				}
+			}
+			frontier = next
+		}
+		var tops []*ssa.Function
+		for f := range family {
+			top := true
+			for _, e := range realInEdges(f) {
+				if family[e.Caller.Func] && e.Caller.Func != f {
+					top = false
+				}
+			}
+			if top {
+				tops = append(tops, f)
+			}
+		}
+		// of those, the ones an attribute expression is answered by: called where a node has been
+		// found to be a *GetAttrNode (its case of the evaluator's type switch, or a method of it)
+		tops = w.getAttrEntries(family)
+		if len(tops) == 0 {
+			continue // a cache user of another kind (method calls, "is defined"): not the resolver of x.name
+		}
+		sort.Slice(tops, func(i, j int) bool { return ssaName(tops[i]) < ssaName(tops[j]) })
+		for _, top := range tops {
+			n++
+			construct := "attribute access on a map of any type reaches reflect.Value.MapIndex"
+			type item struct {
+				f    *ssa.Function
+				path string
+			}
+			seen := map[*ssa.Function]bool{top: true}
+			work := []item{{top, ssaName(top)}}
+			found := ""
+			for len(work) > 0 && found == "" {
+				it := work[0]
+				work = work[1:]
+				instrsOf(it.f, func(in ssa.Instruction) {
+					c, ok := in.(ssa.CallInstruction)
+					if !ok || found != "" {
+						return
+					}
+					g := c.Common().StaticCallee()
+					if g == nil {
+						return
+					}
+					switch g.String() {
+					case "(reflect.Value).MapIndex", "(reflect.Value).MapRange", "(reflect.Value).MapKeys":
+						found = it.path + " → " + g.String() + " at " + w.posOf(in.Pos())
+						return
+					}
+					if isTwigFn(g) && len(g.Blocks) > 0 && !seen[g] && strings.Count(it.path, "→") < 3 {
+						seen[g] = true
+						work = append(work, item{g, it.path + " → " + ssaName(g)})
+					}
+				})
+			}
+			if found != "" {
+				r.ok("R20.8", ssaName(top), construct, w.posOf(top.Pos()), found, true)
+			} else {
+				r.bad("R20.8", ssaName(top), construct, w.posOf(top.Pos()), "the resolver never looks a key up by reflection: x.name is answered only for the map types it names in type assertions, and is empty on every other map (map[string]string, named key types, maps of maps) although x['name'] on the same value finds the key")
+			}
+		}
+	}
+	r.floor("attribute resolvers", n, 1)
+}
+
+// getAttrEntries: members of family that are called where the evaluated node is known to be a
+// *GetAttrNode — in a method of GetAttrNode, or at a site dominated by the success of a type
+// assertion to *GetAttrNode.
+func (w *World) getAttrEntries(family map[*ssa.Function]bool) []*ssa.Function {
+	gat := w.named("GetAttrNode")
+	isGetAttr := func(t types.Type) bool { return types.Identical(deref(t), gat) }
+	out := map[*ssa.Function]bool{}
+	for _, fn := range w.pkgFuncs() {
+		var okBlocks []*ssa.BasicBlock
+		all := fn.Signature.Recv() != nil && isGetAttr(fn.Signature.Recv().Type())
+		if !all {
+			instrsOf(fn, func(in ssa.Instruction) {
+				ta, ok := in.(*ssa.TypeAssert)
+				if !ok || !isGetAttr(ta.AssertedType) {
+					return
+				}
+				if !ta.CommaOk {
+					okBlocks = append(okBlocks, ta.Block())
+					return
+				}
+				// the block entered when the assertion succeeded
+				if ta.Referrers() == nil {
+					return
+				}
+				for _, ref := range *ta.Referrers() {
+					ex, ok := ref.(*ssa.Extract)
+					if !ok || ex.Index != 1 || ex.Referrers() == nil {
+						continue
+					}
+					for _, r2 := range *ex.Referrers() {
+						if iff, ok := r2.(*ssa.If); ok && iff.Cond == ssa.Value(ex) {
+							okBlocks = append(okBlocks, iff.Block().Succs[0])
+						}
+					}
+				}
+			})
+		}
+		if !all && len(okBlocks) == 0 {
+			continue
+		}
+		instrsOf(fn, func(in ssa.Instruction) {
+			c, ok := in.(ssa.CallInstruction)
+			if !ok {
+				return
+			}
+			g := c.Common().StaticCallee()
+			if g == nil || !family[g] {
+				return
+			}
+			// the value of the attribute is what it returns (not "is it defined", not a method call's outcome)
+			res := g.Signature.Results()
+			if res.Len() != 2 || !types.IsInterface(res.At(0).Type()) || res.At(1).Type().String() != "error" {
+				return
+			}
+			if all {
+				out[g] = true
+				return
+			}
+			for _, b := range okBlocks {
+				if b == in.Block() || b.Dominates(in.Block()) {
+					out[g] = true
+				}
+			}
+		})
+	}
+	var res []*ssa.Function
+	for f := range out {
+		res = append(res, f)
+	}
+	return res
+}
+
+// iterationConds: the tests that decide, within one pass through the innermost loop around the
+// definition of elem, whether in runs in that pass: blocks of the loop from which in's block is
+// reached through some but not all successors without going round the loop again.
+func iterationConds(in ssa.Instruction, elem ssa.Value) []ssa.Value {
+	ei, ok := elem.(ssa.Instruction)
+	if !ok || ei.Block() == nil {
+		return controllingConds(in)
+	}
+	var header *ssa.BasicBlock
+	for d := ei.Block(); d != nil && header == nil; d = d.Idom() {
+		for _, p := range d.Preds {
+			if d.Dominates(p) {
+				header = d
+			}
+		}
+	}
+	if header == nil {
+		return controllingConds(in)
+	}
+	b := in.Block()
+	reachesAvoiding := func(from, to *ssa.BasicBlock, avoid ...*ssa.BasicBlock) bool {
+		seen := map[*ssa.BasicBlock]bool{}
+		for _, a := range avoid {
+			seen[a] = true
+		}
+		var walk func(x *ssa.BasicBlock) bool
+		walk = func(x *ssa.BasicBlock) bool {
+			if x == to {
+				return true
+			}
+			if seen[x] {
+				return false
+			}
+			seen[x] = true
+			for _, s := range x.Succs {
+				if walk(s) {
+					return true
+				}
+			}
+			return false
+		}
+		return walk(from)
+	}
+	var out []ssa.Value
+	for _, d := range in.Parent().Blocks {
+		if d == header || !header.Dominates(d) {
+			continue
+		}
+		v, _, ok := ifCond(d)
+		if !ok {
+			continue
+		}
+		reachable := 0
+		for _, s := range d.Succs {
+			if s != header && (s == b || reachesAvoiding(s, b, d, header)) {
+				reachable++
+			}
+		}
+		if reachable >= 1 && reachable < len(d.Succs) {
+			out = append(out, v)
+		}
+	}
+	return out
 }
